@@ -38,7 +38,7 @@ def build_state(rng, version):
                 eng.feed(s[1])
             elif s[0] == "set":
                 eng.call("set", *s[1:5])
-            elif s[0] == "fw" and not str(s[4]).startswith("FILE:"):
+            elif s[0] == "fw" and not str(s[4]).startswith(("FILE:", "HEXFILE:")):
                 eng.call("fw", s[1], s[2], s[3], bytes.fromhex(s[4]) if s[4] else None)
             else:
                 continue
@@ -255,7 +255,7 @@ def replay(case):
                     eng.feed(s[1])
                 elif s[0] == "set":
                     eng.call("set", *s[1:5])
-                elif s[0] == "fw" and not str(s[4]).startswith("FILE:"):
+                elif s[0] == "fw" and not str(s[4]).startswith(("FILE:", "HEXFILE:")):
                     eng.call("fw", s[1], s[2], s[3], bytes.fromhex(s[4]) if s[4] else None)
             except PumpDied:
                 break
